@@ -114,6 +114,9 @@ class Oracle:
             if e != E["Raw"] and e not in self.named:
                 raise Bad("caps", "encoding %s used but never advertised by the client" % ENAME.get(e, e),
                           enc=ENAME.get(e, str(e)))
+            if e == E["CopyRect"] and e not in self.latest:
+                raise Bad("caps", "CopyRect used although the latest SetEncodings does not name it (withdrawn)",
+                          enc="CopyRect", named_earlier=True)
             if x + w > self.fbw or y + h > self.fbh:
                 raise Bad("outside", "rectangle %s outside the announced framebuffer %dx%d" % (hd, self.fbw, self.fbh))
             if e == E["Raw"]:
@@ -517,6 +520,13 @@ def degenerate_case(rng, k, enc, first, zero):
     return L
 
 
+def copywrap_case(k, nx, ny):
+    """F24: an application copy of a fragmented region: more CopyRect rectangles than the count field holds"""
+    W, H = 2 * nx, 2 * ny
+    return ["case %d copywrap" % k, "screen %d %d 1" % (W, H), "connect 8 1 1 good=1", "setenc 0 1",
+            "fur 0 0 0 %d %d" % (W, H), "fur 1 0 0 %d %d" % (W, H), "copygrid %d %d 2 0" % (nx, ny)]
+
+
 def wrap_case(k, nx, ny, drop, enc, maxrects, lastrect=False):
     """F5: NX*NY-drop one-pixel modified rectangles, all requested"""
     W, H = 2 * nx, 2 * ny
@@ -574,6 +584,56 @@ def capdrop_case(rng, k, X, event_first):
     if not event_first:
         L += events
     L += ["fur 1 0 0 %d %d" % (W, H), "fur 0 0 0 %d %d" % (W, H)]
+    return L
+
+
+SIZE_ENCS = [[], [E["NewFBSize"]], [E["ExtDesktopSize"]], [E["NewFBSize"], E["ExtDesktopSize"]]]
+
+
+def multiclient_case(rng, k, a_size=None, b_size=None):
+    """two clients on one screen with independent SetEncodings lists; things one client does change what
+    the server owes the other one: SetDesktopSize (accepted -> the application installs the new framebuffer,
+    or refused), pointer movement, SetEncodings of the other client, application resizes"""
+    W, H = rng.choice([(40, 30), (64, 64), (80, 70)])
+    a_size = rng.choice(SIZE_ENCS) if a_size is None else a_size
+    b_size = rng.choice(SIZE_ENCS) if b_size is None else b_size
+    extra = [E["RichCursor"], E["PointerPos"], E["LastRect"], E["KeyboardLedState"], E["CopyRect"]]
+    a_encs = [rng.choice(PIXEL_ENCS)] + a_size + rng.sample(extra, rng.randint(0, 3))
+    b_encs = [rng.choice(PIXEL_ENCS)] + b_size + rng.sample(extra, rng.randint(0, 3))
+    rng.shuffle(a_encs)
+    L = ["case %d multiclient" % k, "screen %d %d %d ledhook=1" % (W, H, rng.choice([1, 2, 4])), "connect 8 1 1 good=1", "helper",
+         "setenc " + " ".join(map(str, a_encs)), "helperenc " + " ".join(map(str, b_encs)), "fur 0 0 0 %d %d" % (W, H)]
+    mW, mH = W, H
+    for _ in range(rng.choice([4, 8, 12])):
+        r = rng.random()
+        if r < 0.35:
+            who = rng.choice([0, 1, 1])
+            nw, nh = max(4, (W + rng.randint(-12, 12)) & ~3), max(2, H + rng.randint(-6, 6))
+            ok = rng.choice([1, 1, 0])
+            L.append("sds %d %d %d %d" % (who, nw, nh, ok))
+            if ok:
+                W, H = nw, nh
+                mW, mH = min(mW, W), min(mH, H)
+        elif r < 0.5:
+            x, y, w, h = rand_rect(rng, mW, mH)
+            L.append("fur %d %d %d %d %d" % (rng.choice([0, 1]), x, y, w, h))
+        elif r < 0.6:
+            L.append("ptr %d %d" % (rng.randint(0, mW - 1), rng.randint(0, mH - 1)))
+        elif r < 0.7:
+            L.append("fill %d %d %d %d %d %d" % (rand_rect(rng, mW, mH) + (rng.randint(0, 255), rng.randint(0, 5))))
+        elif r < 0.78:
+            L.append("helperenc " + " ".join(map(str, [rng.choice(PIXEL_ENCS)] + rng.choice(SIZE_ENCS))))
+        elif r < 0.86:
+            L.append("setenc " + " ".join(map(str, [rng.choice(PIXEL_ENCS)] + rng.choice(SIZE_ENCS) + rng.sample(extra, 1))))
+        elif r < 0.93:
+            W, H = max(4, (W + rng.randint(-8, 8)) & ~3), max(2, H + rng.randint(-3, 3))
+            L.append("newfb %d %d" % (W, H))
+            mW, mH = min(mW, W), min(mH, H)
+        else:
+            L.append("fur 0 0 0 %d %d" % (mW, mH))
+        if rng.random() < 0.5:
+            L.append("fur 1 0 0 %d %d" % (mW, mH))
+    L.append("fur 0 0 0 %d %d" % (mW, mH))
     return L
 
 
@@ -655,6 +715,12 @@ def gen_cases(ctx):
         add(scaled_case(rng, k))
     for _ in range(24 if ctx.quick() else 300):
         add(malformed_case(rng, k))
+    # two clients with every combination of size-change capabilities, then random ones
+    for a_size in SIZE_ENCS:
+        for b_size in SIZE_ENCS:
+            add(multiclient_case(rng, k, a_size, b_size))
+    for _ in range(16 if ctx.quick() else 300):
+        add(multiclient_case(rng, k))
     # suspected defects (DESIGN.md section 7): F4 family, F5, extended clipboard stickiness
     for enc in PIXEL_ENCS:
         for first in (True, False):
@@ -672,7 +738,9 @@ def heavy_cases(ctx, k0):
     witnesses of F5/F6 are in corpus/C03 (also run one per process)"""
     out = [copyflood_case(k0 + 3, 126, 64, 2),               # 2016 copy rectangles: still fits
            copyflood_case(k0 + 2, 128, 66, -2)]              # 2079 > 2047
+    out += [copywrap_case(k0 + 8, 64, 64)]            # 4032 copy rectangles: fine
     if not ctx.quick():
+        out += [copywrap_case(k0 + 9, 264, 250)]
         out += [wrap_case(k0 + 4, 256, 256, 0, E["Zlib"], 50), wrap_case(k0 + 5, 256, 256, 1, E["Hextile"], 0, lastrect=True),
                 wrap_case(k0 + 6, 256, 256, 2, 0, 0), copyflood_case(k0 + 7, 200, 80, -2)]
     return out
@@ -748,6 +816,8 @@ def source_has(key):
         body = m.group(0) if m else ""
         _SRC["raw24"] = bool(re.search(r"format\.bitsPerPixel\s*==\s*24.*?cl->preferredEncoding\s*=\s*rfbEncodingRaw\s*;", body, flags=re.S))
         _SRC["wrapfix"] = bool(re.search(r"goto\s+countRects\s*;", body)) and "lastRectMode" in body
+        # second stage: the copy rectangles are merged into the update region when they alone reach the field size
+        _SRC["wrapcopy"] = _SRC["wrapfix"] and bool(re.search(r"sraRgnOr\(\s*updateRegion\s*,\s*updateCopyRegion\s*\)", body))
     return _SRC[key]
 
 
@@ -797,9 +867,10 @@ def model_script(case_lines, ops):
             o = parse_kv(op)
             scr.update(pw=o.get("pw", 0), namelen=o.get("namelen", 5))
             M.append("screen " + " ".join("%s=%s" % kv for kv in scr.items()) +
-                     " dontconv=%d xvp=%d utf8=%d ledhook=%d resetextclip=%d raw24=%d wrapfix=%d" % (
+                     " dontconv=%d xvp=%d utf8=%d ledhook=%d resetextclip=%d raw24=%d wrapfix=%d wrapcopy=%d" % (
                          o.get("dontconv", 0), o.get("xvp", 0), o.get("utf8", 0), o.get("ledhook", 0),
-                         int(source_resets_extclip()), int(source_has("raw24")), int(source_has("wrapfix"))))
+                         int(source_resets_extclip()), int(source_has("raw24")), int(source_has("wrapfix")),
+                         int(source_has("wrapcopy"))))
             continue
         if name == "connect":
             hexs = [l.split(" ", 1)[1] for l in got if l.startswith("hs ")]
@@ -827,6 +898,17 @@ def model_script(case_lines, ops):
             pre.append("ev newfb %s %s" % (p[1], p[2]))
             if scr is not None:
                 scr["w"], scr["h"] = int(p[1]), int(p[2])
+        elif name == "sds":
+            # SetDesktopSize from A (who=0) or from the helper B (who=1).  Accepted: the application installs
+            # the new framebuffer (rfbNewFramebuffer); refused: only the requesting client is told
+            called = any(l == "sdscalled 1" for l in got)
+            if called and p[4] == "1":
+                # the framebuffer is installed after the event-loop rounds that delivered the message:
+                # the event is inserted where the harness reports "sdscalled" (see below)
+                if scr is not None:
+                    scr["w"], scr["h"] = int(p[2]), int(p[3])
+            elif called and p[1] == "0":
+                pre.append("ev sdsfail")
         elif name == "setscale":
             pre.append("ev setscale")
             f = int(p[1])
@@ -838,6 +920,8 @@ def model_script(case_lines, ops):
                 pre.append("ev ptrmoved")
         M += pre
         for l in got:
+            if l == "sdscalled 1" and name == "sds" and p[4] == "1":
+                M.append("ev newfb %s %s" % (p[2], p[3]))
             if l.startswith("snap "):
                 M.append(l)
             elif l.startswith("out "):
@@ -918,7 +1002,7 @@ def analyse_case(case_lines, impl_lines, model_lines, crashed, stderr_tail):
             orc.rmax, orc.gmax, orc.bmax = int(p[5]), int(p[6]), int(p[7])
         elif name == "setscale":
             orc.scale_requested = True
-        elif name == "newfb":
+        elif name == "newfb" or (name == "sds" and p[4] == "1" and any(l == "sdscalled 1" for l in got)):
             if E["NewFBSize"] not in orc.latest and E["ExtDesktopSize"] not in orc.latest:
                 resized_blind = True
         for l in got:
@@ -982,6 +1066,17 @@ def analyse_case(case_lines, impl_lines, model_lines, crashed, stderr_tail):
                                               "degenerate_region": snaps_deg or features_of(case_lines, "x")["degenerate_request"],
                                               "requested_rects": ncopy})
         res["oracle"].append(("server process crashed (%s) %s" % (why, loc.group(0) if loc else stderr_tail[-200:]), f))
+    # ---- hypothesis of theorem C03_caps, checked on the real server: copyRegion is empty whenever useCopyRect is off
+    last_snap = None
+    for l in impl_lines:
+        if l.startswith("snap "):
+            last_snap = l
+        elif l.startswith("scaps ") and last_snap is not None:
+            if " copy=0 " in l and " copy=[] " not in last_snap and not res["oracle"]:
+                f = features_of(case_lines, "caps", {"enc": "CopyRect", "named_earlier": True, "invariant": "copyregion"})
+                res["oracle"].append(("a copy is pending (copyRegion not empty) although the client's useCopyRect is off: "
+                                      "the next update sends CopyRect rectangles the client no longer accepts", f))
+            last_snap = None
     # ---- correspondence: model output vs implementation
     mi = [l for l in model_lines]
     # (1) capability flags: C "scaps"/"caps" vs model "mcaps"/"caps"
